@@ -13,14 +13,14 @@ def ob(name, freq, defs, npop=6, **kw):
     uws = {'bui31_next.*': 33, 'bi31_next.*': 34, 'bui63_next.*': 65, 'bi63_next.*': 66, 'bi383_next.*': 1, 'ass_bi383.*': 1, 'ass_int383.*': 3,
            'bi447_next.*': 1, 'ass_bi447.*': 1, 'memcpy.*': 73, 'memmove.*': 3, 'memset.*': 25, 'make_enum.*': 4, 'harness.*': npop + 2,
            'refill.*': 6, 'clr_poss.*': 2, 'shift.*': 3, 'mjd2ht.*': 2, 'fill_mly_ymd.*': 4, FN[freq] + '.*': npop + 4,
-           'WikiSort.*': 2, 'InsertionSort.*': 6, 'echs_instant_fixup.*': 3, 'echs_instant_add.*': 3}
+           'c16_sort.*': 6, 'echs_instant_fixup.*': 3, 'echs_instant_add.*': 3}
     o = dict(name=name, src='h_strm.c', defs=d, units=U, incl=['src/evical.c'], replay_units='all', unwind=4, unwindset=uws,
              solver='cadical', timeout=1500, mem_gb=12, extra=['--max-field-sensitivity-array-size', '4'],
-             checks=['--bounds-check'], allow_nobody=['echs_tzob_offs', 'echs_tzob_shift', 'echs_instant_utc', 'echs_instant_loc'],
-             enc=['refill', 'next_evrrul', FN[freq], 'echs_instant_sort'], sym='DTSTART, list values, COUNT/UNTIL, position of the peek',
+             checks=['--bounds-check'], replace_calls={'echs_instant_sort': 'c16_sort'}, allow_nobody=['echs_tzob_offs', 'echs_tzob_shift', 'echs_instant_utc', 'echs_instant_loc'],
+             enc=['refill', 'next_evrrul', FN[freq]], sym='DTSTART, list values, COUNT/UNTIL, position of the peek',
              bounds='%d pops over a cache of 4 (%d refills); %s' % (npop, (npop + 2) // 3, ' '.join(defs)),
              outside='the real cache size 64; TZID and non-Gregorian streams; streams followed for thousands of occurrences',
-             stubs=['hook ECHSE_VERIF_CCH=4', 'word-wise memcpy/memmove/memset', 'stream object initialised as __make_evrrul() does for one UTC Gregorian rule'])
+             stubs=['hook ECHSE_VERIF_CCH=4', 'echs_instant_sort replaced by a 3-element insertion sort (its correctness for n <= 5 is C20)', 'word-wise memcpy/memmove/memset', 'stream object initialised as __make_evrrul() does for one UTC Gregorian rule'])
     o.update(kw)
     return o
 Q = ('quick', 'thorough'); T = ('thorough',)
